@@ -113,7 +113,10 @@ def tree_close(a, b, rtol=1e-9, atol=1e-11):
             xn, yn = np.isnan(x), np.isnan(y)
             if np.any(xn != yn):
                 return False, "leaf %d: NaN pattern differs" % k
-            m = ~xn
+            xi, yi = np.isinf(x), np.isinf(y)
+            if np.any(xi != yi) or np.any(x[xi] != y[xi]):
+                return False, "leaf %d: infinite entries differ" % k
+            m = ~xn & ~xi
             if np.any(np.abs(x[m] - y[m]) > atol + rtol * np.abs(y[m])):
                 j = int(np.argmax(np.abs(np.where(m, x - y, 0))))
                 return False, "leaf %d: %r vs %r at flat index %d" % (k, x.reshape(-1)[j], y.reshape(-1)[j], j)
